@@ -17,6 +17,8 @@ MUTANTS = {
                                      ["C11"]),
     "stream-no-rewind": ("filehashstore.py", [("        self._obj.seek(0)\n\n        while True:", "        while True:")], ["C01"]),
     "algo-list-alias": ("filehashstore.py", [("algorithm_list_to_calculate = list(self.default_algo_list)", "algorithm_list_to_calculate = self.default_algo_list")], ["C02"]),
+    "check-string-inner-ws": ("filehashstore.py", [('if string is None or string.strip() == "" or any(ch.isspace() for ch in string):', 'if string is None or string.strip() == "":')], ["C17", "C18"]),
+    "check-integer-zero": ("filehashstore.py", [("            if file_size < 1:", "            if file_size < 0:")], ["C17"]),
 }
 
 
